@@ -6,6 +6,7 @@ CONSTANTS
  FixFullText = FALSE
  DevCacheKeyTruncated = FALSE
  DevKeyCut = "none"
+ DevAuthBeforeSemicolon = FALSE
  DevStarSkipsDeny = FALSE
  OnlyWide = FALSE
 INIT Init
